@@ -119,7 +119,12 @@ def cancel_oracle(spec: dict, run, in_flight_ords: set | None = None) -> tuple[l
         canceled_any = any(final[r]["status"] == "CANCELED" for r in unfinished)
         terminal_any = any(v["status"] == "TERMINAL" for v in final.values())
         if canceled_any and wf != "CANCELED" and not (terminal_any and wf == "TERMINAL"):
-            out.append(viol(f"C17/final-status-not-canceled{mech}", f"workflow {wf} although stages were canceled: { {k: v['status'] for k, v in final.items()} }"))
+            stopped_any = any(v["status"] == "STOPPED" for k, v in final.items() if k in top)
+            if wf == "SUCCEEDED" and stopped_any:
+                # known mechanism (DESIGN 10.3 row 13): a STOPPED top-level stage makes CompleteWorkflow report SUCCEEDED
+                out.append(viol("C17/final-status-not-canceled:stopped-stage-makes-workflow-succeed", f"workflow SUCCEEDED although stages were canceled: { {k: v['status'] for k, v in final.items()} }"))
+            else:
+                out.append(viol(f"C17/final-status-not-canceled{mech}", f"workflow {wf} although stages were canceled: { {k: v['status'] for k, v in final.items()} }"))
     if mech:
         with_mech = [v for v in out if v["sig"].endswith(mech)]
         if with_mech:
